@@ -201,9 +201,33 @@ theorem C25_rollback_needs_snapshot (cfg : Cfg) (hgap : cfg.gapCheck = true) (no
     (hlow : n.serial < l.state.serial) :
     deltaUpdate cfg now draw etag lm n fs l ≠ .done l' tr := by
   intro hd
-  obtain ⟨ds, hcalc, _, _, _⟩ := deltaUpdate_done hd
+  obtain ⟨ds, hcalc, _, _, _, _⟩ := deltaUpdate_done hd
   obtain ⟨_, _, hlen⟩ := calcDeltas_some hgap hcalc
   omega
+
+/-- **Re-issued delta (server restored).** If the notification lists — anywhere in its delta
+list, also after older serials the state does not know — a delta whose serial the local state
+remembers with another hash, the delta path cannot complete: a reported success went through
+the snapshot path (or Not Modified) and is clean by `C25_snapshot_reestablishes_clean`. -/
+theorem C25_delta_mutation_needs_snapshot (cfg : Cfg) (now draw : Nat)
+    (etag lm : Option Nat) (n : Notif) (fs : Files) (l l' : Local) (tr : List Nat)
+    (e : DeltaEntry) (he : e ∈ effDeltas cfg n) (h : FileHash)
+    (hknown : List.lookup e.serial l.state.deltaState = some h) (hdiff : h ≠ e.hash) :
+    deltaUpdate cfg now draw etag lm n fs l ≠ .done l' tr := by
+  intro hd
+  obtain ⟨_, _, _, _, _, hm⟩ := deltaUpdate_done hd
+  have := (deltaMutation_iff (effDeltas cfg n) l.state).mpr ⟨e, he, h, hknown, hdiff⟩
+  rw [this] at hm
+  cases hm
+
+/-- The guard on concrete data: the state remembers serial 5 (hash 50); the list starts with the
+unknown older serials 3 and 4 and re-issues 5 with hash 51. -/
+example : deltaMutation
+    [ { serial := 3, file := 1, hash := 30, foreign := false },
+      { serial := 4, file := 2, hash := 40, foreign := false },
+      { serial := 5, file := 3, hash := 51, foreign := false } ]
+    { session := 0, serial := 5, etag := none, lm := none, updated := 0, bestBefore := 0,
+      deltaState := [(5, 50)] } = true := by decide
 
 /-- The rollback branch on concrete data: local serial 12, notified 10 with deltas 9 and 10. -/
 example : calcDeltas { maxDeltaCount := 3, maxListLen := 6, gapCheck := true } 10
